@@ -128,6 +128,13 @@ Proof. destruct c; reflexivity. Qed.
 Lemma map_onto_table_idem t s l : map (onto_table t s) (map (onto_table t s) l) = map (onto_table t s) l.
 Proof. rewrite map_map. apply map_ext. intros; apply onto_table_idem. Qed.
 
+Lemma clear_flags_idem c : clear_flags (clear_flags c) = clear_flags c.
+Proof. reflexivity. Qed.
+Lemma map_clear_flags_idem l : map clear_flags (map clear_flags l) = map clear_flags l.
+Proof. rewrite map_map. apply map_ext. intros; apply clear_flags_idem. Qed.
+Lemma map_clear_flags_off ci l : map clear_flags (flags_off ci l) = map clear_flags l.
+Proof. destruct ci; cbn; [apply map_clear_flags_idem|reflexivity]. Qed.
+
 Lemma alter_reverse_involutive a : alter_has_existing a = true -> alter_reverse (alter_reverse a) = a.
 Proof.
   destruct a as [t c s et es en ec mn mc ms mname mt kw]. unfold alter_has_existing; cbn.
@@ -141,20 +148,20 @@ Qed.
 
 Lemma from_to_constraint_stable a : addcons_stable a = true -> from_constraint (to_constraint a) = a.
 Proof.
-  destruct a as [n t cs s|n t cs s d i|n src ref lc rc ss rs o|n t c s]; cbn [addcons_stable to_constraint from_constraint]; intros Hs.
+  destruct a as [n t cs s k|n t cs s d i k|n src ref lc rc ss rs o k|n t c s k]; cbn [addcons_stable to_constraint from_constraint]; intros Hs.
   - reflexivity.
-  - apply andb_true_iff in Hs as [Hd Hi]. rewrite truthy_b_stable, truthy_s_stable; auto.
+  - rewrite truthy_s_stable; auto.
   - destruct o as [ou od oi om odf]. unfold fkopts_stable in Hs. cbn in Hs |- *.
-    apply andb_true_iff in Hs as [Hs H5]. apply andb_true_iff in Hs as [Hs H4]. apply andb_true_iff in Hs as [Hs H3].
+    apply andb_true_iff in Hs as [Hs H4]. apply andb_true_iff in Hs as [Hs H3].
     apply andb_true_iff in Hs as [H1 H2].
-    rewrite (truthy_s_stable _ H1), (truthy_s_stable _ H2), (truthy_s_stable _ H3), (truthy_s_stable _ H4), (truthy_b_stable _ H5).
+    rewrite (truthy_s_stable _ H1), (truthy_s_stable _ H2), (truthy_s_stable _ H3), (truthy_s_stable _ H4).
     reflexivity.
   - reflexivity.
 Qed.
 
 Lemma retarget_self c : retarget (constr_name c) (constr_table c) (constr_schema c) c = c.
 Proof.
-  destruct c as [n t s cs|n t s cs d i|n t s cs rt rs rcs o|n t s c]; cbn; try reflexivity.
+  destruct c as [n t s cs k|n t s cs d i k|n t s cs rt rs rcs o k|n t s c k]; cbn; try reflexivity.
   destruct (list_eqb N.eqb t rt && optstr_eqb s rs) eqn:E; [|reflexivity].
   apply andb_true_iff in E as [E1 E2]. apply list_eqbN_eq in E1. apply optstr_eqb_eq in E2. subst. reflexivity.
 Qed.
@@ -170,7 +177,7 @@ Proof.
   - (* DropConstraintOp *)
     destruct rev as [a|]; [|discriminate]. inversion H; subst; clear H. eexists; split; [reflexivity|].
     apply decb_true in Hs. subst ty.
-    destruct a as [n t cs s|n t cs s d i|n src ref lc rc ss rs o|n t c s]; cbn; try reflexivity.
+    destruct a as [n t cs s k|n t cs s d i k|n src ref lc rc ss rs o k|n t c s k]; cbn; try reflexivity.
     destruct (list_eqb N.eqb src ref && optstr_eqb ss rs); reflexivity.
   - (* CreateIndexOp *)
     inversion H; subst; clear H. eexists; split; [reflexivity|]. destruct c as [n t cs s u ine kw]; cbn in *.
@@ -180,12 +187,14 @@ Proof.
     rewrite (truthy_t_stable _ Hs). unfold to_index, drop_to_index; cbn.
     destruct table as [[|? ?]|]; reflexivity.
   - (* CreateTableOp *)
+    apply andb_true_iff in Hs as [Hs Hi]. destruct (t_idx t) eqn:Ei; [|discriminate].
     inversion H; subst; clear H. eexists; split; [reflexivity|]. cbn.
-    rewrite (truthy_t_stable _ Hs). unfold create_to_table, drop_to_table; cbn. rewrite !map_onto_table_idem. reflexivity.
+    rewrite (truthy_t_stable _ Hs). unfold erase_flags, create_to_table, drop_to_table; cbn. rewrite Ei. cbn.
+    rewrite !map_onto_table_idem. repeat (rewrite ?map_clear_flags_off, ?map_clear_flags_idem; cbn [flags_off]). reflexivity.
   - (* DropTableOp *)
     inversion H; subst; clear H. eexists; split; [reflexivity|]. cbn.
-    rewrite (truthy_t_stable _ Hs). unfold create_to_table, drop_to_table; cbn.
-    destruct rev as [r|]; cbn; rewrite ?map_onto_table_idem; reflexivity.
+    rewrite (truthy_t_stable _ Hs). unfold erase_flags, create_to_table, drop_to_table; cbn.
+    destruct rev as [r|]; cbn; rewrite ?map_onto_table_idem; repeat (rewrite ?map_clear_flags_off, ?map_clear_flags_idem; cbn [flags_off]); reflexivity.
   - (* CreateTableCommentOp *)
     destruct existing_comment as [e|]; inversion H; subst; clear H.
     + destruct comment as [c|]; [|discriminate]. eexists; split; reflexivity.
@@ -302,33 +311,39 @@ Ltac refute := split; [reflexivity|]; eexists; eexists; split; [reflexivity|]; s
 (* CreateIndexOp('ix', 't', ['a'], if_not_exists=True) *)
 Definition w_flag : op := CreateIndexOp (mkCI (Some [105; 120]%N) [116%N] [IxCol [97%N]] None false (Some true) 0%N).
 Lemma refuted_flags : refutes w_flag. Proof. refute. Qed.
-(* CreateUniqueConstraintOp('uq', 't', ['a'], deferrable=False) *)
-Definition w_deferrable : op := AddConstraintOp (CreateUniqueConstraintOp (Some [117; 113]%N) [116%N] [[97%N]] None (Some false) None).
-Lemma refuted_deferrable : refutes w_deferrable. Proof. refute. Qed.
+(* CreateTableOp('t', [Column('a', <type 1>, index=True)]): to_table() has Index('ix_t_a', 'a') *)
+Definition w_index : op :=
+  CreateTableOp (mkT [116%N] None [mkCol [97%N] 1%N true None None false true] []
+                     [mkIdx (Some [105; 120; 95; 116; 95; 97]%N) [116%N] None [IxCol [97%N]] false 0%N] None [] 0%N) None false.
+Lemma refuted_table_index : refutes w_index. Proof. refute. Qed.
+(* repaired by ea71f11: CreateUniqueConstraintOp('uq', 't', ['a'], deferrable=False) is now inside the class *)
+Definition w_deferrable : op := AddConstraintOp (CreateUniqueConstraintOp (Some [117; 113]%N) [116%N] [[97%N]] None (Some false) None 0%N).
+Lemma deferrable_false_in_class : roundtrip_safe w_deferrable = true.
+Proof. reflexivity. Qed.
 (* AlterColumnOp('t', 'c', modify_nullable=False) *)
 Definition w_alter : op := AlterColumnOp (mkAC [116%N] [99%N] None None Unset None None (Some false) Unset Unset None None 0%N).
 Lemma refuted_alter : refutes w_alter. Proof. refute. Qed.
 (* DropColumnOp('t', 'a', mssql_drop_check=True, _reverse=AddColumnOp('t', Column('a', <type 1>))) *)
 Definition w_dropcol : op :=
-  DropColumnOp [116%N] [97%N] None 1%N (Some ([116%N], mkCol [97%N] 1%N true None None, None)).
+  DropColumnOp [116%N] [97%N] None 1%N (Some ([116%N], mkCol [97%N] 1%N true None None false false, None)).
 Lemma refuted_dropcol_kw : refutes w_dropcol. Proof. refute. Qed.
 (* CreateTableCommentOp('t', None, existing_comment='o') *)
 Definition w_comment : op := CreateTableCommentOp [116%N] None (Some [111%N]) None.
 Lemma refuted_table_comment : refutes w_comment. Proof. refute. Qed.
 (* DropConstraintOp('uq', 't', type_=None, _reverse=CreateUniqueConstraintOp('uq', 't', ['a'])) *)
 Definition w_droptype : op :=
-  DropConstraintOp (Some [117; 113]%N) [116%N] None None (Some (CreateUniqueConstraintOp (Some [117; 113]%N) [116%N] [[97%N]] None None None)).
+  DropConstraintOp (Some [117; 113]%N) [116%N] None None (Some (CreateUniqueConstraintOp (Some [117; 113]%N) [116%N] [[97%N]] None None None 0%N)).
 Lemma refuted_drop_type : refutes w_droptype. Proof. refute. Qed.
 
 (* non-vacuity: an operation of every reversible class is in roundtrip_safe and reverses *)
 Definition nv_ops : list top :=
-  [ Leaf (CreateTableOp (mkT [116%N] None [mkCol [97%N] 1%N false None None] [CPk None [116%N] None [[97%N]]] (Some [99%N]) [] 0%N) None true);
+  [ Leaf (CreateTableOp (mkT [116%N] None [mkCol [97%N] 1%N false None None true false] [CPk None [116%N] None [[97%N]] 0%N; CUq None [116%N] None [[97%N]] (Some false) None 7%N] [] (Some [99%N]) [] 0%N) None false);
     ModifyTableOps [116%N] None
-      [ AddColumnOp [116%N] (mkCol [98%N] 2%N true (Some 3%N) None) None;
+      [ AddColumnOp [116%N] (mkCol [98%N] 2%N true (Some 3%N) None true true) None;
         AlterColumnOp (mkAC [116%N] [98%N] None (Some 2%N) (SetTo (Some 3%N)) (Some true) None (Some false) (SetTo (Some [120%N])) (SetTo None) (Some [100%N]) (Some 4%N) 0%N);
-        AddConstraintOp (CreateForeignKeyOp (Some [102%N]) [116%N] [116%N] [[98%N]] [[97%N]] None None (mkFkO (Some [67%N]) None None None (Some true)));
+        AddConstraintOp (CreateForeignKeyOp (Some [102%N]) [116%N] [116%N] [[98%N]] [[97%N]] None None (mkFkO (Some [67%N]) None None None (Some false)) 9%N);
         CreateIndexOp (mkCI (Some [105%N]) [116%N] [IxCol [98%N]; IxText 5%N] None true None 0%N);
         CreateTableCommentOp [116%N] (Some [110%N]) (Some [99%N]) None ];
-    Leaf (DropTableOp [117%N] None None None [] 0%N (Some (mkTRev [mkCol [97%N] 1%N true None None] [] true))) ].
+    Leaf (DropTableOp [117%N] None None None [] 0%N (Some (mkTRev [mkCol [97%N] 1%N true None None false true] [] true))) ].
 Lemma nv_ops_in_class : forallb roundtrip_safe_top nv_ops = true /\ exists d, reverse_ops nv_ops = Ok d.
 Proof. split; [reflexivity|]. eexists. vm_compute. reflexivity. Qed.
